@@ -42,3 +42,82 @@ Print Assumptions C03_src_reason_suppressed.
 Example C03_src_nonvacuous : src_notification_check_user_filters_recognised = true -> src_notification_check_user_filters 32 false false false true 32 true 2 4 = true /\ src_notification_check_user_filters 32 false false false true 32 true 2 3 = false.
 Proof. intro H; xl_rec H. all: repeat split; vm_compute; reflexivity. Qed.
 
+
+(* ---------------------------------------------------------------------------------------------------------------------
+   Round 2 (notes/XLATE.md section 8): regions of Notification::BeginExecuteNotification and the reminder part of
+   NotificationComponent::NotificationTimerHandler as translated from /repo on this run (coq/Facts/Facts_fn_begin.v).
+   A region that can be left early by return/continue yields `left early?` first. *)
+From Icv Require Import Facts.Facts_fn_begin Src.SrcBegin.
+
+(* the notification-level filters (period with stashing, times window, type filter, state filter): the region returns
+   exactly when nf_pre stops the call, and has then written what nf_begin writes; nobody is notified *)
+Theorem C03_src_begin_gate : src_begin_gate_recognised = true -> src_service_state_to_filter_recognised = true ->
+  src_host_state_to_filter_recognised = true ->
+  forall c now x ty force reminder s has_p inside,
+    0 <= cx_raw x <= 3 -> cx_per_closed x = has_p && negb inside ->
+    let '(lft, supp, next, nomore, evs) :=
+      src_begin_gate (nf_type_bit ty) force reminder has_p inside now true (xb_some (nfc_begin c)) (nf_opt_val (nfc_begin c))
+        (xb_some (nfc_end c)) (nf_opt_val (nfc_end c)) (cx_lhsc x) (nfc_types c) (nfc_interval c) (nfc_svc c)
+        (nf_api_state (nfc_svc c) (cx_raw x)) (nfc_states c) (nf_supp_mask (nf_sup s)) (nf_next s) (nf_nomore s) in
+    let r := nf_begin c now x ty force reminder s in
+    lft = negb (xb_gate_eqb (nf_pre c now x ty force) NfGo) /\
+    (lft = true ->
+       nf_supp_mask (nf_sup (fst r)) = supp /\ nf_next (fst r) = next /\ nf_nomore (fst r) = nomore /\
+       nf_npu (fst r) = (match evs with [] => nf_npu s | _ => [] end) /\ ne_reached (snd r) = false /\ ne_sent (snd r) = []).
+Proof. exact src_begin_gate_nf_begin. Qed.
+Print Assumptions C03_src_begin_gate.
+
+(* the bookkeeping block = what the NfGo branch of nf_begin writes (xb_begin_go states the same right-hand sides for nf_begin) *)
+Theorem C03_src_begin_bookkeeping : src_begin_bookkeeping_recognised = true ->
+  forall c now ty s0,
+    src_begin_bookkeeping (nf_type_bit ty) now (nfc_interval c) (nf_next s0) (nf_nomore s0) (nf_last s0) (nf_last_problem s0)
+    = (let isp := nf_type_eqb ty NfProblem in
+       (if isp && (0 <? nfc_interval c) then now + nfc_interval c else nf_next s0,
+        if isp && (nfc_interval c <=? 0) then true else if negb (nf_type_eqb ty NfCustom) then false else nf_nomore s0,
+        now, if isp then now else nf_last_problem s0, [XbNumber])).
+Proof. exact src_begin_bookkeeping_eq. Qed.
+Print Assumptions C03_src_begin_bookkeeping.
+
+Theorem C03_src_begin_go_model : forall c now x ty force reminder s,
+  nf_pre c now x ty force = NfGo ->
+  let s0 := if nf_type_eqb ty NfRecovery then nf_set_lns s [] else s in
+  let s' := fst (nf_begin c now x ty force reminder s) in
+  let isp := nf_type_eqb ty NfProblem in
+  nf_next s' = (if isp && (0 <? nfc_interval c) then now + nfc_interval c else nf_next s0) /\
+  nf_nomore s' = (if isp && (nfc_interval c <=? 0) then true else if negb (nf_type_eqb ty NfCustom) then false else nf_nomore s0) /\
+  nf_last s' = now /\ nf_last_problem s' = (if isp then now else nf_last_problem s0) /\ nf_number s' = nf_number s0 + 1 /\
+  ne_reached (snd (nf_begin c now x ty force reminder s)) = true.
+Proof. exact xb_begin_go. Qed.
+Print Assumptions C03_src_begin_go_model.
+
+(* one iteration of the per-user loop (enable_notifications, user filters, the Recovery / Acknowledgement "was notified of
+   the problem" rule, the duplicate-state rule): left by `continue` exactly when nf_user_sends says the user gets nothing *)
+Theorem C03_src_begin_user : src_begin_user_skipped_recognised = true -> src_notification_check_user_filters_recognised = true ->
+  forall c x ty force reminder npu lns u has_p inside,
+    0 <= cx_raw x <= 3 -> nfu_per_closed u = has_p && negb inside ->
+    src_begin_user_skipped (nf_type_bit ty) force reminder (nfu_enable u) has_p inside (nfu_types u) (nfc_svc c)
+      (nf_api_state (nfc_svc c) (cx_raw x)) (nfu_states u) (nf_mem (nfu_id u) npu) (cx_volatile x) (nf_lns_get (nfu_id u) lns)
+    = negb (nf_user_sends c x ty force reminder npu lns u).
+Proof. exact src_begin_user_skipped_eq. Qed.
+Print Assumptions C03_src_begin_user.
+
+(* the reminder conditions of the timer handler = nf_tick_rem (both reads of the clock see the same instant) *)
+Theorem C03_src_timer_reminder : src_timer_reminder_skipped_recognised = true ->
+  forall c now x s ck_supp,
+    negb (Z.land ck_supp 32 =? 0) = cx_ck_supp_problem x ->
+    let '(skipped, next) :=
+      src_timer_reminder_skipped now now (nfc_interval c) (nf_nomore s) (nf_next s) (if cx_hard x then f_StateTypeHard else f_StateTypeSoft)
+        (nfc_svc c) (nf_api_state (nfc_svc c) (cx_raw x)) ck_supp (nf_supp_mask (nf_sup s)) (cx_reachable x) (cx_downtime x)
+        (cx_acked x) (cx_flapping x) in
+    nf_tick_rem c now x s =
+    if skipped then (nf_set_next s next, [])
+    else let '(s2, e) := nf_begin c now x NfProblem false true (nf_set_next s next) in (s2, [NfEvExec e]).
+Proof. exact src_timer_reminder_skipped_eq. Qed.
+Print Assumptions C03_src_timer_reminder.
+
+Example C03_src_round2_nonvacuous : src_begin_gate_recognised = true -> src_begin_user_skipped_recognised = true ->
+  (* a Problem outside the notification's period is stashed; a Recovery for a user who never saw the problem is skipped *)
+  src_begin_gate 32 false false true false 100 true false 0 false 0 0 96 0 true 2 15 0 7 false = (true, 32, 7, false, []) /\
+  src_begin_user_skipped 64 false false true false false 96 true 0 15 false false 0 = true /\
+  src_begin_user_skipped 64 false false true false false 96 true 0 15 true false 0 = false.
+Proof. intros H1 H2; xl_rec H1; xl_rec H2. all: repeat split; vm_compute; reflexivity. Qed.
